@@ -1013,6 +1013,126 @@ theorem observe_agree (P : Nat → Prop) {h h' : Heap} (agree : ∀ a, P a → h
         exact ⟨p, hp, by rw [e]; rfl⟩
       rw [ih p.2 this]
 
+/-! ## the walk consults the table exactly at the declared sites of the declaration -/
+
+theorem c19_mapItems_congr {f g : Heap → Item → R Item} (hfg : ∀ h i, f h i = g h i) :
+    ∀ (its : List (String × Item)) (h : Heap), mapItems f h its = mapItems g h its
+  | [], h => rfl
+  | (k, i) :: rest, h => by
+    simp only [mapItems, hfg h i]
+    cases g h i with
+    | mk h1 o =>
+      cases o with
+      | none => rfl
+      | some i' => simp only [c19_mapItems_congr hfg rest h1]
+
+theorem c19_nodeColl_congr (m : Mode) (fuel : Nat) {f g : Heap → Item → R Item} (hfg : ∀ h i, f h i = g h i)
+    (h : Heap) (i : Item) : nodeColl m fuel f h i = nodeColl m fuel g h i := by
+  cases i with
+  | atom v => rfl
+  | ref a => cases m <;> simp only [nodeColl, c19_mapItems_congr hfg]
+
+theorem c19_nodeRec_congr (m : Mode) (fuel : Nat) {f g : Heap → List (String × Item) → R (List (String × Item))}
+    (hfg : ∀ h its, f h its = g h its) (h : Heap) (i : Item) : nodeRec m fuel f h i = nodeRec m fuel g h i := by
+  cases i with
+  | atom v => rfl
+  | ref a => cases m <;> simp only [nodeRec, hfg]
+
+theorem c19_nodeWrap_congr (m : Mode) (fuel : Nat) {f g : Heap → Item → R Item} (hfg : ∀ h i, f h i = g h i)
+    (h : Heap) (i : Item) : nodeWrap m fuel f h i = nodeWrap m fuel g h i := by
+  cases m <;> simp only [nodeWrap, hfg]
+
+theorem c19_nodeOwned_congr (m : Mode) (fuel : Nat) {f g : Heap → Item → R Item} (hfg : ∀ h i, f h i = g h i)
+    (h : Heap) (i : Item) : nodeOwned m fuel f h i = nodeOwned m fuel g h i := by
+  cases m <;> simp only [nodeOwned, hfg]
+
+theorem c19_optStep_congr {f g : Heap → Item → R Item} {f' g' : Nat → Heap → Item → R Item}
+    (hfg : ∀ h i, f h i = g h i) (hfg' : ∀ n h i, f' n h i = g' n h i) (n : Nat) (h : Heap) (i : Item) :
+    optStep f f' n h i = optStep g g' n h i := by
+  cases n with
+  | zero => simp only [optStep, hfg]
+  | succ n => simp only [optStep, hfg']
+
+theorem c19_fieldStep_congr (name : String) {f g : Heap → Item → R Item}
+    {f' g' : Heap → List (String × Item) → R (List (String × Item))}
+    (hfg : ∀ h i, f h i = g h i) (hfg' : ∀ h its, f' h its = g' h its) (h : Heap) (its : List (String × Item)) :
+    fieldStep name f f' h its = fieldStep name g g' h its := by
+  simp only [fieldStep, hfg, hfg']
+
+/-- two tables agree on every site of a list -/
+def AgreeOn (M M' : Kind → Cat → Mode) (sites : List (Kind × Cat)) : Prop := ∀ kc, kc ∈ sites → M kc.1 kc.2 = M' kc.1 kc.2
+
+theorem AgreeOn.head {M M' : Kind → Cat → Mode} {kc : Kind × Cat} {l : List (Kind × Cat)} (h : AgreeOn M M' (kc :: l)) :
+    M kc.1 kc.2 = M' kc.1 kc.2 := h kc List.mem_cons_self
+theorem AgreeOn.tail {M M' : Kind → Cat → Mode} {kc : Kind × Cat} {l : List (Kind × Cat)} (h : AgreeOn M M' (kc :: l)) :
+    AgreeOn M M' l := fun x hx => h x (List.mem_cons_of_mem _ hx)
+theorem AgreeOn.left {M M' : Kind → Cat → Mode} {l1 l2 : List (Kind × Cat)} (h : AgreeOn M M' (l1 ++ l2)) :
+    AgreeOn M M' l1 := fun x hx => h x (List.mem_append_left _ hx)
+theorem AgreeOn.right {M M' : Kind → Cat → Mode} {l1 l2 : List (Kind × Cat)} (h : AgreeOn M M' (l1 ++ l2)) :
+    AgreeOn M M' l2 := fun x hx => h x (List.mem_append_right _ hx)
+
+mutual
+/-- **the table matters only at the declared sites**: two tables that agree on `sitesOf s` drive the very same walk of
+    `s` — on every heap, for every value (so `admitted`, which looks at exactly these sites, looks at everything the
+    operation can do with the declaration) -/
+theorem transfer_sites (M M' : Kind → Cat → Mode) (fuel : Nat) :
+    (s : Shape) → AgreeOn M M' (sitesOf s) → ∀ h i, transfer M fuel s h i = transfer M' fuel s h i
+  | .scalar _, _ => by intro h i; simp only [transfer]
+  | .any, ag => by
+    intro h i
+    simp only [sitesOf] at ag
+    simp only [transfer, show M .any .none = M' .any .none from ag.head]
+  | .untyped, ag => by
+    intro h i
+    simp only [sitesOf] at ag
+    simp only [transfer, show M .any .none = M' .any .none from ag.head]
+  | .coll k s, ag => by
+    intro h i
+    simp only [sitesOf] at ag
+    simp only [transfer, show M k s.cat = M' k s.cat from ag.head]
+    exact c19_nodeColl_congr _ _ (transfer_sites M M' fuel s ag.tail) h i
+  | .keyed k fs, ag => by
+    intro h i
+    simp only [sitesOf] at ag
+    simp only [transfer, show M k .none = M' k .none from ag.head]
+    exact c19_nodeRec_congr _ _ (transferFields_sites M M' fuel fs ag.tail) h i
+  | .wrap k s, ag => by
+    intro h i
+    simp only [sitesOf] at ag
+    simp only [transfer, show M k s.cat = M' k s.cat from ag.head]
+    exact c19_nodeWrap_congr _ _ (transfer_sites M M' fuel s ag.tail) h i
+  | .wrapN k p opts, ag => by
+    intro h i
+    simp only [sitesOf] at ag
+    simp only [transfer, show M (fallbackSite k p opts).1 (fallbackSite k p opts).2 = M' (fallbackSite k p opts).1 (fallbackSite k p opts).2 from ag.head]
+    exact transferOpts_sites M M' fuel k _ opts ag.tail _ h i
+  | .owned s, ag => by
+    intro h i
+    simp only [sitesOf] at ag
+    -- the owner row is consulted too: it is part of every owned site list (see `sitesOf`)
+    simp only [transfer, show M .owner .none = M' .owner .none from ag.head]
+    exact c19_nodeOwned_congr _ _ (transfer_sites M M' fuel s ag.tail) h i
+theorem transferOpts_sites (M M' : Kind → Cat → Mode) (fuel : Nat) (k : Kind) (fb : Mode) :
+    (opts : List Shape) → AgreeOn M M' (sitesOfOpts k opts) →
+      ∀ n h i, transferOpts M fuel k fb opts n h i = transferOpts M' fuel k fb opts n h i
+  | [], _ => by intro n h i; simp only [transferOpts]
+  | s :: rest, ag => by
+    intro n h i
+    simp only [sitesOfOpts] at ag
+    simp only [transferOpts, show M k s.cat = M' k s.cat from ag.head]
+    exact c19_optStep_congr (c19_nodeWrap_congr _ _ (transfer_sites M M' fuel s ag.tail.left))
+      (transferOpts_sites M M' fuel k fb rest ag.tail.right) n h i
+theorem transferFields_sites (M M' : Kind → Cat → Mode) (fuel : Nat) :
+    (fs : List (String × Shape)) → AgreeOn M M' (sitesOfFields fs) →
+      ∀ h its, transferFields M fuel fs h its = transferFields M' fuel fs h its
+  | [], _ => by intro h its; simp only [transferFields]
+  | (name, s) :: rest, ag => by
+    intro h its
+    simp only [sitesOfFields] at ag
+    simp only [transferFields]
+    exact c19_fieldStep_congr name (transfer_sites M M' fuel s ag.left) (transferFields_sites M M' fuel rest ag.right) h its
+end
+
 /-! ## helpers for `setattr` -/
 
 theorem c19_kids_setItem (t : String) (name : String) (v : Item) :
